@@ -332,6 +332,23 @@ class ND:
         return v
 
     def __getitem__(self, idx):
+        if isinstance(idx, tuple) and any(i is None for i in idx):
+            # x[None, :, :] / x[:, None, :]: new component axes of length 1 (NumPy broadcasting of small tensors)
+            rest = [i for i in idx if i is not None]
+            if any(i != slice(None) for i in rest) or len(rest) != len(self.shape) + 1:
+                raise TraceAbort('np.newaxis mixed with component indexing')
+            comp = list(idx[1:]) if self.grid_first else list(idx[:-1])
+            pos = [k for k, i in enumerate(comp) if i is None]
+            shape, src = [], iter(self.shape)
+            for i in comp:
+                shape.append(1 if i is None else next(src))
+            out = ND(tuple(shape), grid_first=self.grid_first)
+            for k, v in self.data.items():
+                kk, it = [], iter(k)
+                for i in comp:
+                    kk.append(0 if i is None else next(it))
+                out.data[tuple(kk)] = v
+            return out
         key = self._strip(idx)
         if len(key) == len(self.shape):
             return self.get(key)
@@ -358,8 +375,18 @@ class ND:
     def _ew(self, o, f):
         if isinstance(o, ND):
             if o.shape != self.shape:
-                raise TraceAbort('shape mismatch')
+                if len(o.shape) != len(self.shape) or any(a != b and 1 not in (a, b) for a, b in zip(self.shape, o.shape)):
+                    raise TraceAbort('shape mismatch')
+                shape = tuple(max(a, b) for a, b in zip(self.shape, o.shape))
+                res = ND(shape, grid_first=self.grid_first)
+                for k in res.keys():
+                    ka = tuple(0 if self.shape[d] == 1 else k[d] for d in range(len(shape)))
+                    kb = tuple(0 if o.shape[d] == 1 else k[d] for d in range(len(shape)))
+                    res.data[k] = f(self.get(ka), o.get(kb))
+                return res
             return ND(self.shape, {k: f(self.get(k), o.get(k)) for k in self.keys()}, self.grid_first)
+        if isinstance(o, Col):       # x[:, None] against an (nphi, k) tensor: the same grid array for every component
+            o = o.e
         o = E.lift(o)
         return ND(self.shape, {k: f(self.get(k), o) for k in self.keys()}, self.grid_first)
 
